@@ -10,7 +10,8 @@ from harness.scripted import explore, run_scripted
 from checks import c19
 
 HASHSEEDS = ["0", "1", "2", "3", "random"]
-CONT = simruns.SIR_CONT + simruns.SIS_CONT + ["simple_contagion_tuple_statuses", "simple_contagion_many_statuses"]
+CONT = simruns.SIR_CONT + simruns.SIS_CONT + ["simple_contagion_tuple_statuses", "simple_contagion_many_statuses", "simple_contagion_directed",
+                                               "fast_SIR+R0", "Gillespie_SIR+R0", "fast_nonMarkov_SIR+R0"]
 
 
 def worker(tier, seed, hs):
